@@ -300,10 +300,17 @@ func (p *printVisitor) EnterOperationDefinition(ref int) {
 
 	hasName := p.document.OperationDefinitions[ref].Name.Length() > 0
 	hasVariables := p.document.OperationDefinitions[ref].HasVariableDefinitions
+	// the query shorthand `{ ... }` is only valid without name, variables, directives and
+	// description, and only unambiguous when it does not follow a type system definition
+	// (whose optional body the '{' would otherwise become)
+	needsKeyword := hasName || hasVariables ||
+		p.document.OperationDefinitions[ref].HasDirectives ||
+		p.document.OperationDefinitions[ref].Description.IsDefined ||
+		p.operationFollowsTypeSystemDefinition(ref)
 
 	switch p.document.OperationDefinitions[ref].OperationType {
 	case ast.OperationTypeQuery:
-		if hasName || hasVariables {
+		if needsKeyword {
 			p.write(literal.QUERY)
 		}
 	case ast.OperationTypeMutation:
@@ -322,6 +329,20 @@ func (p *printVisitor) EnterOperationDefinition(ref int) {
 			p.write(literal.SPACE)
 		}
 	}
+}
+
+func (p *printVisitor) operationFollowsTypeSystemDefinition(ref int) bool {
+	for i := range p.document.RootNodes {
+		if p.document.RootNodes[i].Kind != ast.NodeKindOperationDefinition || p.document.RootNodes[i].Ref != ref {
+			continue
+		}
+		if i == 0 {
+			return false
+		}
+		previous := p.document.RootNodes[i-1].Kind
+		return previous != ast.NodeKindOperationDefinition && previous != ast.NodeKindFragmentDefinition
+	}
+	return false
 }
 
 func (p *printVisitor) LeaveOperationDefinition(ref int) {
